@@ -2,6 +2,8 @@ package main
 
 import (
 	"fmt"
+	"os"
+	"time"
 	"go/token"
 	"go/types"
 	"sort"
@@ -12,7 +14,8 @@ import (
 
 // ---------------------------------------------------------------- R-NIL
 //
-// Census of every nil-panic-capable instruction of the package.  Each is
+// Census of every nil-panic-capable instruction of the package (and, with
+// the same precondition machinery, of every panicking reflect.Value call).  Each is
 // discharged by a NONNIL fact on every path reaching it, by provenance
 // (fresh allocation, object invariant), or becomes a *precondition* of the
 // enclosing unexported function when the value is parameter-rooted; the
@@ -22,19 +25,51 @@ import (
 
 type nilReq struct {
 	fact   Fact
+	pc     []Fact // path condition (facts over the parameters) under which the need arises; empty = always
 	origin string // where the requirement comes from (function chain + position)
 }
 
+func (r nilReq) key() string {
+	ks := []string{fmt.Sprintf("%s=%v", factKey(r.fact.Kind, r.fact.T), r.fact.Val)}
+	var ps []string
+	for _, f := range r.pc {
+		ps = append(ps, fmt.Sprintf("%s=%v", factKey(f.Kind, f.T), f.Val))
+	}
+	sort.Strings(ps)
+	return strings.Join(append(ks, ps...), " & ")
+}
+
+// pcOf: the parameter-rooted part of a state, usable as a path condition.
+func pcOf(s *State) []Fact {
+	var out []Fact
+	for _, f := range s.factList() {
+		if f.Kind == aDID {
+			continue
+		}
+		if f.T.summaryRooted(true) && f.T.mentionsParam() && termDepth(f.T) <= 12 {
+			out = append(out, f)
+		}
+	}
+	sort.Slice(out, func(i, j int) bool { return factKey(out[i].Kind, out[i].T) < factKey(out[j].Kind, out[j].T) })
+	return out
+}
+
+// nilSite is one panic-capable instruction.  `need` returns the facts that
+// are required but not established in a given state (empty = discharged).
 type nilSite struct {
+	rule  string
 	instr ssa.Instruction
-	val   ssa.Value // value that must be non-nil (nil for call-precondition sites)
 	what  string
-	reqs  []nilReq // for call sites: callee preconditions (already in callee terms)
-	call  *ssa.CallCommon
+	need  func(fa *FnAnalysis, s *State) []Fact
+	call  *ssa.CallCommon // call of an in-package function: callee preconditions
 }
 
 type nilAnalysis struct {
+	overflow map[*ssa.Function]bool
+	deadline time.Time
+	timedOut bool
 	c        *Ctx
+	callee   map[*ssa.Function][]nilReq // preconditions used for callees (previous round)
 	requires map[*ssa.Function][]nilReq
 	sites    map[*ssa.Function][]nilSite
 	failed   map[*ssa.Function][]nilFail
@@ -43,7 +78,6 @@ type nilAnalysis struct {
 
 type nilFail struct {
 	site   nilSite
-	term   *Term
 	detail string
 }
 
@@ -51,29 +85,93 @@ func (c *Ctx) nilAnalysis() *nilAnalysis {
 	if c.nilA != nil {
 		return c.nilA
 	}
-	na := &nilAnalysis{c: c, requires: map[*ssa.Function][]nilReq{}, sites: map[*ssa.Function][]nilSite{}, failed: map[*ssa.Function][]nilFail{}}
+	c.forallPredicates()
+	na := &nilAnalysis{c: c, requires: map[*ssa.Function][]nilReq{}, sites: map[*ssa.Function][]nilSite{}, failed: map[*ssa.Function][]nilFail{}, overflow: map[*ssa.Function]bool{}}
+	na.deadline = time.Now().Add(180 * time.Second)
 	c.nilA = na
 	for _, fn := range c.p.Funcs {
-		na.sites[fn] = na.collectSites(fn)
+		na.sites[fn] = append(na.collectSites(fn), na.collectReflSites(fn)...)
 		na.nsites += len(na.sites[fn])
 	}
-	for iter := 0; iter < 30; iter++ {
-		changed := false
+	// Round-based (Jacobi) fixpoint: in each round every function's
+	// preconditions are recomputed from scratch against the callee
+	// preconditions of the previous round, so that nothing derived from an
+	// intermediate state survives (the result does not depend on visiting order).
+	prev := map[*ssa.Function][]nilReq{}
+	for round := 0; round < 16; round++ {
+		next := map[*ssa.Function][]nilReq{}
 		for _, fn := range c.p.Funcs {
-			if na.step(fn) {
-				changed = true
+			if time.Now().After(na.deadline) {
+				na.timedOut = true
+				break
+			}
+			next[fn] = na.localFix(fn, prev)
+		}
+		if na.timedOut {
+			break
+		}
+		same := true
+		for _, fn := range c.p.Funcs {
+			if reqsKey(next[fn]) != reqsKey(prev[fn]) {
+				same = false
+				break
 			}
 		}
-		if !changed {
+		if dbg := os.Getenv("STACKCHECK_REQDEBUG"); dbg != "" {
+			if fn := c.p.ByName[dbg]; fn != nil {
+				fmt.Fprintf(os.Stderr, "round %d: %s has %d reqs\n", round, dbg, len(next[fn]))
+				for _, r := range next[fn] {
+					fmt.Fprintf(os.Stderr, "     %s  [%d pc]  <- %s\n", describeFact(r.fact), len(r.pc), r.origin)
+				}
+			}
+		}
+		prev = next
+		if same {
 			break
 		}
 	}
+	na.callee = prev
+	na.requires = prev
+	for _, fn := range c.p.Funcs {
+		na.step(fn)
+	}
 	return na
+}
+
+func reqsKey(rs []nilReq) string {
+	var ks []string
+	for _, r := range rs {
+		ks = append(ks, r.key())
+	}
+	sort.Strings(ks)
+	return strings.Join(ks, "\n")
+}
+
+// localFix computes the preconditions of fn from scratch, given the callee
+// preconditions of the previous round.
+func (na *nilAnalysis) localFix(fn *ssa.Function, callee map[*ssa.Function][]nilReq) []nilReq {
+	na.callee = callee
+	na.requires = map[*ssa.Function][]nilReq{}
+	for i := 0; i < 12; i++ {
+		if !na.step(fn) {
+			break
+		}
+	}
+	return na.requires[fn]
 }
 
 func isPtr(t types.Type) bool {
 	_, ok := t.Underlying().(*types.Pointer)
 	return ok
+}
+
+func (na *nilAnalysis) nnSite(in ssa.Instruction, v ssa.Value, what string) nilSite {
+	return nilSite{rule: "R-NIL", instr: in, what: what, need: func(fa *FnAnalysis, s *State) []Fact {
+		if ok, known := fa.nonNil(s, v); known && ok {
+			return nil
+		}
+		return []Fact{{aNN, fa.term(s, v), true}}
+	}}
 }
 
 func (na *nilAnalysis) collectSites(fn *ssa.Function) []nilSite {
@@ -87,7 +185,7 @@ func (na *nilAnalysis) collectSites(fn *ssa.Function) []nilSite {
 					if a, _ := allocCell(x.X); a != nil {
 						continue
 					}
-					out = append(out, nilSite{instr: in, val: x.X, what: "load through " + describePtr(x.X)})
+					out = append(out, na.nnSite(in, x.X, "load through "+describePtr(x.X)))
 				}
 			case *ssa.Store:
 				if a, _ := allocCell(x.Addr); a != nil {
@@ -97,32 +195,32 @@ func (na *nilAnalysis) collectSites(fn *ssa.Function) []nilSite {
 				case *ssa.FieldAddr, *ssa.IndexAddr, *ssa.Global:
 					continue // the address computation itself carries the obligation
 				}
-				out = append(out, nilSite{instr: in, val: x.Addr, what: "store through " + describePtr(x.Addr)})
+				out = append(out, na.nnSite(in, x.Addr, "store through "+describePtr(x.Addr)))
 			case *ssa.FieldAddr:
 				if _, ok := x.X.(*ssa.Alloc); ok {
 					continue
 				}
-				out = append(out, nilSite{instr: in, val: x.X, what: "field " + fieldName(x) + " of " + describePtr(x.X)})
+				out = append(out, na.nnSite(in, x.X, "field "+fieldName(x)+" of "+describePtr(x.X)))
 			case *ssa.IndexAddr:
 				if isPtr(x.X.Type()) {
 					if _, ok := x.X.(*ssa.Alloc); ok {
 						continue
 					}
-					out = append(out, nilSite{instr: in, val: x.X, what: "index through array pointer"})
+					out = append(out, na.nnSite(in, x.X, "index through array pointer"))
 				}
 			case *ssa.Slice:
 				if isPtr(x.X.Type()) {
 					if _, ok := x.X.(*ssa.Alloc); ok {
 						continue
 					}
-					out = append(out, nilSite{instr: in, val: x.X, what: "slice of array pointer"})
+					out = append(out, na.nnSite(in, x.X, "slice of array pointer"))
 				}
 			case *ssa.MapUpdate:
-				out = append(out, nilSite{instr: in, val: x.Map, what: "write to map"})
+				out = append(out, na.nnSite(in, x.Map, "write to map"))
 			case *ssa.Call, *ssa.Defer, *ssa.Go:
 				cc := callCommon(in)
 				if cc.IsInvoke() {
-					out = append(out, nilSite{instr: in, val: cc.Value, what: "invoke " + cc.Method.Name() + " on interface " + typeStr(cc.Value.Type())})
+					out = append(out, na.nnSite(in, cc.Value, "invoke "+cc.Method.Name()+" on interface "+typeStr(cc.Value.Type())))
 					continue
 				}
 				if _, ok := cc.Value.(*ssa.Builtin); ok {
@@ -130,18 +228,62 @@ func (na *nilAnalysis) collectSites(fn *ssa.Function) []nilSite {
 				}
 				cal := c.p.callee(cc)
 				if cal == nil {
-					out = append(out, nilSite{instr: in, val: cc.Value, what: "call of function value"})
+					out = append(out, na.nnSite(in, cc.Value, "call of function value"))
 					continue
 				}
 				if c.p.inPkg(cal) {
-					out = append(out, nilSite{instr: in, call: cc, what: "preconditions of " + relName(cal)})
+					out = append(out, nilSite{rule: "R-NIL", instr: in, call: cc, what: "preconditions of " + relName(cal)})
 					continue
 				}
 				// external method with pointer receiver: the receiver must not be nil
 				if recv := cal.Signature.Recv(); recv != nil && isPtr(recv.Type()) && len(cc.Args) > 0 {
-					out = append(out, nilSite{instr: in, val: cc.Args[0], what: "receiver of " + cal.String()})
+					out = append(out, na.nnSite(in, cc.Args[0], "receiver of "+cal.String()))
 				}
 			}
+		}
+	}
+	return out
+}
+
+// collectReflSites: calls of panicking reflect.Value methods (table in rules_refl.go).
+func (na *nilAnalysis) collectReflSites(fn *ssa.Function) []nilSite {
+	c := na.c
+	var out []nilSite
+	for _, b := range fn.Blocks {
+		for _, in := range b.Instrs {
+			call, ok := in.(*ssa.Call)
+			if !ok {
+				continue
+			}
+			cal := call.Call.StaticCallee()
+			if cal == nil {
+				continue
+			}
+			req, ok := reflTable[cal.String()]
+			if !ok {
+				continue
+			}
+			short := strings.TrimPrefix(cal.String(), "(reflect.Value).")
+			recv := call.Call.Args[0]
+			out = append(out, nilSite{rule: "R-REFL", instr: in, what: "Value." + short, need: func(fa *FnAnalysis, s *State) []Fact {
+				var missing []Fact
+				vt := fa.term(s, recv)
+				if req.valid {
+					if v, ok := fa.knownTerm(s, aVALID, vt); !ok || !v {
+						missing = append(missing, Fact{aVALID, vt, true})
+					}
+				}
+				if req.canif && !c.canifOK(fa, s, recv) {
+					missing = append(missing, Fact{aCANIF, vt, true})
+				}
+				if len(req.kinds) > 0 {
+					kk := kindInKind(req.kinds)
+					if v, ok := fa.knownTerm(s, kk, vt); !ok || !v {
+						missing = append(missing, Fact{kk, vt, true})
+					}
+				}
+				return missing
+			}})
 		}
 	}
 	return out
@@ -174,22 +316,170 @@ func describePtr(v ssa.Value) string {
 func (na *nilAnalysis) assumptions(fn *ssa.Function) []Fact {
 	var out []Fact
 	for _, r := range na.requires[fn] {
-		out = append(out, r.fact)
+		if len(r.pc) == 0 {
+			out = append(out, r.fact)
+		}
 	}
 	return out
 }
 
 func (na *nilAnalysis) addReq(fn *ssa.Function, r nilReq) bool {
+	k := r.key()
+	same := 0
 	for _, x := range na.requires[fn] {
-		if x.fact.Kind == r.fact.Kind && x.fact.T == r.fact.T && x.fact.Val == r.fact.Val {
+		if x.key() == k {
 			return false
 		}
+		if x.fact.Kind == r.fact.Kind && x.fact.T == r.fact.T && x.fact.Val == r.fact.Val {
+			if len(x.pc) == 0 {
+				return false // already required unconditionally
+			}
+			same++
+		}
+	}
+	if same >= 12 && len(r.pc) > 0 {
+		// too many variants of the same need: require it unconditionally
+		r.pc = nil
+		var keep []nilReq
+		for _, x := range na.requires[fn] {
+			if !(x.fact.Kind == r.fact.Kind && x.fact.T == r.fact.T && x.fact.Val == r.fact.Val) {
+				keep = append(keep, x)
+			}
+		}
+		na.requires[fn] = keep
+	}
+	if len(na.requires[fn]) >= 48 {
+		// budget: do not let preconditions multiply without bound; an unrecorded need
+		// is reported at the site instead (never silently dropped)
+		na.overflow[fn] = true
+		return false
 	}
 	na.requires[fn] = append(na.requires[fn], r)
-	sort.Slice(na.requires[fn], func(i, j int) bool {
-		return factKey(na.requires[fn][i].fact.Kind, na.requires[fn][i].fact.T) < factKey(na.requires[fn][j].fact.Kind, na.requires[fn][j].fact.T)
-	})
+	sort.Slice(na.requires[fn], func(i, j int) bool { return na.requires[fn][i].key() < na.requires[fn][j].key() })
 	return true
+}
+
+// covered: the needed fact is a (conditional) precondition whose path
+// condition holds in s.
+func (na *nilAnalysis) covered(fa *FnAnalysis, s *State, f Fact) bool {
+	for _, r := range na.requires[fa.fn] {
+		if r.fact.Kind != f.Kind || r.fact.T != f.T || r.fact.Val != f.Val {
+			continue
+		}
+		ok := true
+		for _, p := range r.pc {
+			if v, known := fa.knownTerm(s, p.Kind, p.T); !known || v != p.Val {
+				ok = false
+				break
+			}
+		}
+		if ok {
+			return true
+		}
+	}
+	return false
+}
+
+// missing returns the needs a site still has in some state under fa, each
+// with the path condition of that state.
+func (na *nilAnalysis) missing(fa *FnAnalysis, site nilSite) []nilReq {
+	c := na.c
+	var out []nilReq
+	seen := map[string]bool{}
+	add := func(r nilReq) {
+		k := r.key()
+		if !seen[k] {
+			seen[k] = true
+			out = append(out, r)
+		}
+	}
+	states := fa.statesBefore(site.instr)
+	if site.call == nil {
+		for _, s := range states {
+			for _, f := range site.need(fa, s) {
+				if na.covered(fa, s, f) {
+					continue
+				}
+				add(nilReq{f, pcOf(s), fmt.Sprintf("%s %s: %s", relName(fa.fn), c.p.instrPos(site.instr), site.what)})
+			}
+		}
+		return out
+	}
+	cal := c.p.callee(site.call)
+	for _, rq := range na.callee[cal] {
+		for _, s := range states {
+			args := fa.argTerms(s, site.call)
+			origin := fmt.Sprintf("%s %s -> %s", relName(fa.fn), c.p.instrPos(site.instr), rq.origin)
+			// assume the callee-side path condition in a scratch copy of the state
+			tmp := s
+			var carried []Fact
+			if len(rq.pc) > 0 {
+				tmp = s.clone()
+				for _, p := range rq.pc {
+					pt := c.eng.tt.substFull(p.T, args, nil, s.epoch)
+					if pt == nil {
+						continue // dropping a conjunct only strengthens the requirement
+					}
+					fa.addTermFact(tmp, p.Kind, pt, p.Val)
+					if pt.summaryRooted(true) && pt.mentionsParam() && termDepth(pt) <= 12 {
+						carried = append(carried, Fact{p.Kind, pt, p.Val})
+					}
+				}
+				if tmp.dead {
+					continue // this caller state never reaches the callee's need
+				}
+			}
+			tt := c.eng.tt.substFull(rq.fact.T, args, nil, s.epoch)
+			if tt == nil {
+				add(nilReq{Fact{rq.fact.Kind, c.eng.tt.mk(Term{K: "V", V: site.instr.(ssa.Value)}), rq.fact.Val}, nil, origin})
+				continue
+			}
+			if v, known := fa.knownTerm(tmp, rq.fact.Kind, tt); known && v == rq.fact.Val {
+				continue
+			}
+			// evaluate the pure calls the needed term is built from under the hypotheses
+			// (virtual calls: the caller need not perform them itself)
+			if subs := appSubterms(tt); len(subs) > 0 {
+				if tmp == s {
+					tmp = s.clone()
+				}
+				for _, p := range rq.pc {
+					if pt := c.eng.tt.substFull(p.T, args, nil, s.epoch); pt != nil {
+						for _, sub := range appSubterms(pt) {
+							fa.refineApp(tmp, sub, 0)
+						}
+					}
+				}
+				for _, sub := range subs {
+					fa.refineApp(tmp, sub, 0)
+				}
+				if tmp.dead {
+					continue
+				}
+				if v, known := fa.knownTerm(tmp, rq.fact.Kind, tt); known && v == rq.fact.Val {
+					continue
+				}
+			}
+			if rq.fact.Kind == aNN && rq.fact.T.K == "P" && rq.fact.T.N < len(site.call.Args) {
+				if v2, k2 := fa.nonNil(tmp, site.call.Args[rq.fact.T.N]); k2 && v2 == rq.fact.Val {
+					continue
+				}
+			}
+			need := Fact{rq.fact.Kind, tt, rq.fact.Val}
+			if na.covered(fa, s, need) {
+				continue
+			}
+			if os.Getenv("STACKCHECK_MISSDEBUG") == relName(fa.fn) {
+				fmt.Fprintf(os.Stderr, "MISS at %s %s: need %s\n   callee req pc:\n", relName(fa.fn), c.p.instrPos(site.instr), describeFact(need))
+				for _, p := range rq.pc {
+					fmt.Fprintf(os.Stderr, "      %s=%v\n", factKey(p.Kind, p.T), p.Val)
+				}
+				fmt.Fprintf(os.Stderr, "   tmp state: %s\n", tmp.describe())
+			}
+			add(nilReq{need, append(pcOf(s), carried...), origin})
+		}
+	}
+	return out
 }
 
 // step re-analyses fn under its current preconditions; returns true when a
@@ -200,120 +490,117 @@ func (na *nilAnalysis) step(fn *ssa.Function) bool {
 	changed := false
 	var fails []nilFail
 	for _, site := range na.sites[fn] {
-		states := fa.statesBefore(site.instr)
-		if site.call == nil {
-			ok := true
-			var t *Term
-			for _, s := range states {
-				if v, known := fa.nonNil(s, site.val); !known || !v {
-					ok = false
-					t = fa.term(s, site.val)
-					break
-				}
-			}
-			if ok {
-				continue
-			}
-			if t != nil && t.paramRooted() && t.mentionsParam() {
-				if na.addReq(fn, nilReq{Fact{aNN, t, true}, fmt.Sprintf("%s %s: %s", relName(fn), c.p.instrPos(site.instr), site.what)}) {
-					changed = true
-				}
-				continue
-			}
-			if cand := na.abduce(fn, site); cand != nil {
-				if cand.Kind == "noop" {
-					changed = true
-					continue
-				}
-				if na.addReq(fn, nilReq{*cand, fmt.Sprintf("%s %s: %s", relName(fn), c.p.instrPos(site.instr), site.what)}) {
-					changed = true
-				}
-				continue
-			}
-			fails = append(fails, nilFail{site: site, term: t, detail: site.what + " may be nil here"})
+		if _, isDefer := site.instr.(*ssa.Defer); isDefer && site.call != nil {
+			// deferred call: judged where it is registered
+		}
+		miss := na.missing(fa, site)
+		if len(miss) == 0 {
 			continue
 		}
-		// call site: callee preconditions
-		cal := c.p.callee(site.call)
-		for _, rq := range na.requires[cal] {
-			ok := true
-			var t *Term
-			for _, s := range states {
-				args := fa.argTerms(s, site.call)
-				tt := c.eng.tt.subst(rq.fact.T, args)
-				t = tt
-				if tt == nil {
-					ok = false
-					break
-				}
-				if v, known := fa.knownTerm(s, rq.fact.Kind, tt); !known || v != rq.fact.Val {
-					// try the value-level oracle for plain arguments
-					if rq.fact.T.K == "P" && rq.fact.T.N < len(site.call.Args) {
-						if v2, k2 := fa.nonNil(s, site.call.Args[rq.fact.T.N]); k2 && v2 == rq.fact.Val {
-							continue
-						}
-					}
-					ok = false
-					break
-				}
+		if na.overflow[fn] {
+			var ds []string
+			for _, m := range miss {
+				ds = append(ds, describeFact(m.fact))
 			}
-			if ok {
-				continue
-			}
-			if t != nil && t.paramRooted() && t.mentionsParam() {
-				if na.addReq(fn, nilReq{Fact{rq.fact.Kind, t, rq.fact.Val}, fmt.Sprintf("%s %s -> %s", relName(fn), c.p.instrPos(site.instr), rq.origin)}) {
-					changed = true
-				}
-				continue
-			}
-			if cand := na.abduce(fn, site); cand != nil {
-				if cand.Kind == "noop" {
-					changed = true
-					continue
-				}
-				if na.addReq(fn, nilReq{*cand, fmt.Sprintf("%s %s -> %s", relName(fn), c.p.instrPos(site.instr), rq.origin)}) {
-					changed = true
-				}
-				continue
-			}
-			fails = append(fails, nilFail{site: site, term: t, detail: fmt.Sprintf("%s requires %s non-nil (needed at %s)", relName(cal), rq.fact.T.key, rq.origin)})
+			fails = append(fails, nilFail{site: site, detail: site.what + ": precondition budget of the function exhausted; still needed: " + strings.Join(ds, ", ")})
+			continue
 		}
+		// 1. strictly parameter-rooted needs become preconditions
+		var rest []nilReq
+		for _, m := range miss {
+			if m.fact.T != nil && m.fact.T.paramRooted() && m.fact.T.mentionsParam() {
+				// plain parameter needs stay unconditional when the parameter is a pointer the
+				// function dereferences on its main path; otherwise keep the path condition
+				if m.fact.Kind == aNN && na.unconditionalOK(fn, m) {
+					m.pc = nil
+				}
+				if na.addReq(fn, m) {
+					changed = true
+				}
+				continue
+			}
+			rest = append(rest, m)
+		}
+		if len(rest) == 0 {
+			continue
+		}
+		// 2. a simple hypothesis on a parameter that discharges the site
+		if cand := na.abduce(fn, site); cand != nil {
+			if cand.Kind == "noop" {
+				changed = true
+				continue
+			}
+			if na.addReq(fn, nilReq{*cand, nil, fmt.Sprintf("%s %s: %s", relName(fn), c.p.instrPos(site.instr), site.what)}) {
+				changed = true
+			}
+			continue
+		}
+		// 3. needs expressed through pure calls / entry-state loads of the parameters
+		var local []string
+		for _, m := range rest {
+			if m.fact.T != nil && m.fact.T.summaryRooted(true) && m.fact.T.mentionsParam() && termDepth(m.fact.T) <= 12 {
+				if na.addReq(fn, m) {
+					changed = true
+				}
+				continue
+			}
+			local = append(local, describeFact(m.fact))
+		}
+		if len(local) == 0 {
+			continue
+		}
+		detail := site.what + ": not established on every path: " + strings.Join(local, ", ")
+		if site.call != nil {
+			detail = fmt.Sprintf("%s: callee precondition not established: %s", site.what, strings.Join(local, ", "))
+		}
+		fails = append(fails, nilFail{site: site, detail: detail})
 	}
 	na.failed[fn] = fails
 	return changed
 }
 
-// siteOK re-evaluates one site under the given analysis.
-func (na *nilAnalysis) siteOK(fa *FnAnalysis, site nilSite) bool {
-	c := na.c
-	states := fa.statesBefore(site.instr)
-	if site.call == nil {
-		for _, s := range states {
-			if v, known := fa.nonNil(s, site.val); !known || !v {
-				return false
-			}
-		}
+// unconditionalOK: a non-nil need on a bare pointer parameter (receiver
+// style) is recorded without its path condition; this keeps the common
+// "worker assumes an initialised receiver" preconditions small.
+func (na *nilAnalysis) unconditionalOK(fn *ssa.Function, m nilReq) bool {
+	t := m.fact.T
+	if t.K == "P" {
 		return true
 	}
-	cal := c.p.callee(site.call)
-	for _, rq := range na.requires[cal] {
-		for _, s := range states {
-			args := fa.argTerms(s, site.call)
-			tt := c.eng.tt.subst(rq.fact.T, args)
-			if tt == nil {
-				return false
-			}
-			if v, known := fa.knownTerm(s, rq.fact.Kind, tt); !known || v != rq.fact.Val {
-				if rq.fact.T.K == "P" && rq.fact.T.N < len(site.call.Args) {
-					if v2, k2 := fa.nonNil(s, site.call.Args[rq.fact.T.N]); k2 && v2 == rq.fact.Val {
-						continue
-					}
-				}
-				return false
-			}
-		}
+	if t.K == "F" && t.A.K == "P" && t.N == 0 {
+		return true
 	}
-	return true
+	return false
+}
+
+func termDepth(t *Term) int {
+	if t == nil {
+		return 0
+	}
+	a, b := termDepth(t.A), termDepth(t.B)
+	if b > a {
+		a = b
+	}
+	return a + 1
+}
+
+func describeFact(f Fact) string {
+	switch {
+	case f.Kind == aNN:
+		return "non-nil " + f.T.key
+	case f.Kind == aVALID:
+		return "valid reflect.Value " + f.T.key
+	case f.Kind == aCANIF:
+		return "CanInterface " + f.T.key
+	case strings.HasPrefix(f.Kind, "kindin:"):
+		return "Kind in {" + strings.TrimPrefix(f.Kind, "kindin:") + "} of " + f.T.key
+	}
+	return f.Kind + " " + f.T.key
+}
+
+// siteOK re-evaluates one site under the given analysis.
+func (na *nilAnalysis) siteOK(fa *FnAnalysis, site nilSite) bool {
+	return len(na.missing(fa, site)) == 0
 }
 
 // abduce looks for a single parameter-rooted non-nil hypothesis under which
@@ -333,6 +620,9 @@ func (na *nilAnalysis) abduce(fn *ssa.Function, site nilSite) *Fact {
 		case *types.Pointer, *types.Interface, *types.Map, *types.Signature:
 			cands = append(cands, Fact{aNN, pt, true})
 		}
+		if typeStr(p.Type()) == "reflect.Value" {
+			cands = append(cands, Fact{aVALID, pt, true})
+		}
 	}
 	base := na.assumptions(fn)
 	if fa0 := c.eng.analyze(fn, base); na.siteOK(fa0, site) {
@@ -351,6 +641,13 @@ func (na *nilAnalysis) abduce(fn *ssa.Function, site nilSite) *Fact {
 		}
 		fa := c.eng.analyze(fn, append(append([]Fact{}, base...), cand))
 		if na.siteOK(fa, site) {
+			// necessity: if the site is also fine (or unreachable) when the hypothesis is
+			// false, the hypothesis is not what the site needs - keep looking
+			neg := cand
+			neg.Val = !neg.Val
+			if fneg := c.eng.analyze(fn, append(append([]Fact{}, base...), neg)); na.siteOK(fneg, site) {
+				continue
+			}
 			cc := cand
 			return &cc
 		}
@@ -379,24 +676,32 @@ func describeTermForUser(fn *ssa.Function, t *Term) string {
 // ruleNil reports the census for the functions in scope (nil = whole
 // package).  Preconditions of exported entry points are violations.
 func (c *Ctx) ruleNil(rule string, scope []*ssa.Function) {
+	c.ruleCensus(scope, map[string]bool{"R-NIL": true})
+}
+
+func (c *Ctx) ruleRefl(rule string, scope []*ssa.Function) {
+	c.ruleCensus(scope, map[string]bool{"R-REFL": true})
+	c.ruleCanif()
+}
+
+func (c *Ctx) ruleCensus(scope []*ssa.Function, rules map[string]bool) {
 	na := c.nilAnalysis()
 	rep := c.rep
-	inScope := map[*ssa.Function]bool{}
 	if scope == nil {
 		scope = c.p.Funcs
-	}
-	for _, fn := range scope {
-		inScope[fn] = true
 	}
 	exported := map[*ssa.Function]APIMethod{}
 	for _, m := range c.api {
 		exported[m.Fn] = m
 	}
-	total := 0
+	if na.timedOut {
+		rep.undecided("R-NIL", "package", "analysis budget", "?", "the precondition fixpoint did not finish within its time budget; nothing can be concluded")
+	}
+	counts := map[string]int{}
 	for _, fn := range scope {
 		fa := c.eng.analyze(fn, na.assumptions(fn))
 		if fa.unstable {
-			rep.undecided(rule, relName(fn), "analysis", c.p.pos(fn.Pos()), "fact propagation did not stabilise")
+			rep.undecided("R-NIL", relName(fn), "analysis", c.p.pos(fn.Pos()), "fact propagation did not stabilise")
 		}
 		ord := newOrdinal()
 		failed := map[ssa.Instruction][]nilFail{}
@@ -404,33 +709,65 @@ func (c *Ctx) ruleNil(rule string, scope []*ssa.Function) {
 			failed[f.site.instr] = append(failed[f.site.instr], f)
 		}
 		for _, site := range na.sites[fn] {
-			total++
 			construct := ord.next(site.what)
+			if !rules[site.rule] {
+				continue
+			}
+			counts[site.rule]++
 			pos := c.p.instrPos(site.instr)
 			if fs := failed[site.instr]; len(fs) > 0 {
 				var ds []string
 				for _, f := range fs {
-					ds = append(ds, f.detail)
+					if f.site.what == site.what {
+						ds = append(ds, f.detail)
+					}
 				}
-				rep.bad(rule, relName(fn), construct, pos, strings.Join(ds, "; "))
-				continue
+				if len(ds) > 0 {
+					rep.bad(site.rule, relName(fn), construct, pos, strings.Join(ds, "; "))
+					continue
+				}
 			}
-			o := Obligation{Rule: rule, Key: rule + ":" + relName(fn) + ":" + construct, Fn: relName(fn), Pos: pos, Status: "discharged", By: "non-nil on every path (guard fact, provenance, invariant or caller-established precondition)"}
-			rep.add(o)
+			by := "non-nil on every path (guard fact, provenance, invariant or caller-established precondition)"
+			if site.rule == "R-REFL" {
+				by = "validity / kind / accessibility of the receiver established on every path (local guard, summary or caller-established precondition)"
+			}
+			rep.add(Obligation{Rule: site.rule, Key: site.rule + ":" + relName(fn) + ":" + construct, Fn: relName(fn), Pos: pos, Status: "discharged", By: by})
 		}
 		// exported entry points: no precondition allowed
 		if m, ok := exported[fn]; ok {
 			for _, rq := range na.requires[fn] {
-				if m.PtrRecv && rq.fact.T.K == "P" && rq.fact.T.N == 0 {
+				rule := "R-NIL"
+				if rq.fact.Kind != aNN {
+					rule = "R-REFL"
+				}
+				if !rules[rule] {
+					continue
+				}
+				if m.PtrRecv && rq.fact.Kind == aNN && rq.fact.T.K == "P" && rq.fact.T.N == 0 {
 					rep.assume("A-RECV: the pointer receiver of " + m.String() + " is not nil")
 					continue
 				}
-				rep.bad(rule, m.String(), "entry requires "+describeTermForUser(fn, rq.fact.T)+" non-nil", c.p.pos(fn.Pos()),
-					fmt.Sprintf("exported entry point dereferences %s with no guard on some path: %s", describeTermForUser(fn, rq.fact.T), rq.origin))
+				rep.bad(rule, m.String(), "entry requires "+describeFactForUser(fn, rq.fact), c.p.pos(fn.Pos()),
+					fmt.Sprintf("exported entry point needs %s with no guard on some path: %s", describeFactForUser(fn, rq.fact), rq.origin))
 			}
 		}
 	}
-	rep.Extra[rule+"_sites"] = total
+	for r, n := range counts {
+		rep.Extra[r+"_sites"] = n
+	}
+}
+
+func describeFactForUser(fn *ssa.Function, f Fact) string {
+	t := describeTermForUser(fn, f.T)
+	switch {
+	case f.Kind == aNN:
+		return t + " non-nil"
+	case f.Kind == aVALID:
+		return t + " to be a valid reflect.Value"
+	case f.Kind == aCANIF:
+		return t + " to be readable (CanInterface)"
+	}
+	return t + " " + f.Kind
 }
 
 // ---------------------------------------------------------------- R-INV
